@@ -269,6 +269,7 @@ class Conn(object):
         self.name = name
         self.p = None
         self.alive = False
+        self.closing = False
         self.server_dropped = None
 
     def server_drop(self, how):
@@ -718,7 +719,16 @@ class World(object):
             p = self.factory.buildProtocol(None)
             p.factory = self.factory
             conn.p = p
-            p.sendMessage = lambda payload, isBinary=False, **kw: self._on_frame(conn, payload, isBinary)
+            # autobahn's own precondition is kept: sending on a connection that is not OPEN (e.g. one whose
+            # closing handshake has begun) raises Disconnected - see begin_close()
+            p.state = p.STATE_OPEN
+
+            def _send_message(payload, isBinary=False, **kw):
+                if p.state != p.STATE_OPEN:
+                    from autobahn.exception import Disconnected
+                    raise Disconnected("Attempt to send on a closed protocol")
+                return self._on_frame(conn, payload, isBinary)
+            p.sendMessage = _send_message
             p.sendClose = lambda *a, **kw: conn.server_drop("sendClose")
             p.dropConnection = lambda *a, **kw: conn.server_drop("dropConnection")
             p.transport = FakeTransport(conn)
@@ -745,7 +755,8 @@ class World(object):
         conn = self.conns[name]
         st = self._begin("cmd", name, msg)
         st.extra["payload_len"] = len(payload)
-        if not conn.alive:
+        if not conn.alive or conn.closing:
+            # (autobahn ignores data frames that arrive after the peer's Close frame)
             st.extra["dead"] = True
             self._end(st)
             return st
@@ -768,11 +779,24 @@ class World(object):
         st = self._begin("drop", name)
         if conn.alive:
             try:
+                conn.p.state = conn.p.STATE_CLOSED
                 conn.p.onClose(True, 1000, "")
             except Exception as e:
                 st.exc = "%s: %s" % (type(e).__name__, e)
                 st.tb = traceback.format_exc()
             conn.alive = False
+        self._end(st)
+        return st
+
+    def begin_close(self, name):
+        """The client's Close frame has been processed (autobahn: state CLOSING, reply sent, TCP teardown requested)
+        but the connection is not lost yet: onClose comes with the later drop().  Verified against the real
+        process over TCP (wire.closing_handshake_case): in that window sendMessage raises Disconnected."""
+        conn = self.conns[name]
+        st = self._begin("closing", name)
+        if conn.alive:
+            conn.p.state = conn.p.STATE_CLOSING
+            conn.closing = True
         self._end(st)
         return st
 
